@@ -111,7 +111,9 @@ class BehavioralRTLIRGeneratorL1( ast.NodeVisitor ):
 
   def handle_constant( s, node, obj ):
     if isinstance( obj, int ):
-      return bir.Number( obj )
+      # int( obj ): a bool attribute ( s.EN = True ) is the number 1, not
+      # the text "True"
+      return bir.Number( int( obj ) )
     elif isinstance( obj, Bits ):
       return bir.SizeCast( obj.nbits, bir.Number( obj.uint() ) )
     else:
